@@ -42,10 +42,15 @@ def run_static(prop, seed, tier, replay):
             "trivially_agreeing": sum(1 for _, v, _ in l1 if v == "ok0"),
             "model_drift": len(drift),
             "drift_examples": [{"input": res["cases"][rid]["code"][:200], "why": d[:200]} for rid, d in drift[:3]]},
-        "states": st["tlc_distinct"], "transitions": st["tlc_states"],
+        "design_models": st.get("models", {}),
+        "states": st["tlc_distinct"] + sum(m["distinct"] for m in st.get("models", {}).values()),
+        "transitions": st["tlc_states"] + sum(m["states"] for m in st.get("models", {}).values()),
         "traces_validated_against_impl": st["records"],
         "evaluations": st["cases"], "samples": samples,
-        "rule": "cases = every seed operation x every statement context under the full configuration and sampled "
+        "rule": "design level: MC_Rewriter.tla -- TLC enumerates every program of a bounded grammar under three configurations and "
+                "checks the properties on the prediction of the rewriter model (Rewriter.tla); every enumerated program is printed, "
+                "replayed into the real rewriter and its observed output compared with the prediction (0 drift = the design result "
+                "transfers). Observations: cases = every seed operation x every statement context under the full configuration and sampled "
                 "sub-configurations + seeded random programs/configurations (harness/py/gen.py); each is rewritten by the real "
                 "rewriter, input and re-parsed output are recorded as one trace record and judged by TraceStatic.tla; "
                 "a case is non-trivial for this property when its decider's antecedent is exercised (verdict other than 'na'); "
